@@ -6,6 +6,7 @@
       namespace.go       Namespace.add, Namespace.doConnect
       server_conn.go     serverConn.connect, serverConn.connectError
       server_socket.go   serverSocket.onConnect, cleanup (new), onPacket / onEvent
+    (doConnect: store, then the connection's tables, then onConnect, then the handler goroutine)
       adapter/adapter_memory.go  AddAll, delete, DeleteAll, SocketRooms, apply (Sockets/Broadcast)
 
     One namespace is modelled (every namespace is its own object with its own socket store,
@@ -183,11 +184,11 @@ Inductive pc :=
 | PSendError (r : rej)   (* connect: connectError(mErr.data()) *)
 | PRejected (r : rej)
 | PStore                 (* doConnect: n.sockets.set(socket) *)
+| PConnTables            (* doConnect: socket.conn.sockets.set(socket); socket.conn.nsps.set(n) *)
 | PJoinOwn               (* onConnect: s.Join(Room(s.ID())) *)
 | PSendConnect           (* onConnect: sendControlPacket(CONNECT, {sid}) *)
 | PSetConnected          (* onConnect: s.connected = true *)
 | PSpawn                 (* doConnect: go func() { connection handlers } *)
-| PConnTables            (* connect: c.sockets.set(socket); c.nsps.set(nsp) *)
 | PAdmitted.
 
 Inductive hstate := HNone | HPending | HRan.
@@ -232,18 +233,18 @@ Definition step_main (t : adm) (s : server) : adm * server :=
   | PSendError r => (with_pc t (PRejected r), log (OPkt sd (PktConnectError (rej_message r))) s)
   | PRejected _ => (t, s)
   | PStore =>
-      (with_pc t PJoinOwn,
+      (with_pc t PConnTables,
        mkServer (set_add N.eqb sd (store s)) (adp s) (conn_flag s) (c_socks s) (c_nsps s) (trace s))
+  | PConnTables =>
+      (with_pc t PJoinOwn,
+       mkServer (store s) (adp s) (conn_flag s) (c_socks s ++ [(t_conn t, sd)])
+                (set_add N.eqb (t_conn t) (c_nsps s)) (trace s))
   | PJoinOwn => (with_pc t PSendConnect, with_adp (add_all sd [ROwn sd] (adp s)) s)
   | PSendConnect => (with_pc t PSetConnected, log (OPkt sd (PktConnect sd)) s)
   | PSetConnected =>
       (with_pc t PSpawn,
        mkServer (store s) (adp s) (set_add N.eqb sd (conn_flag s)) (c_socks s) (c_nsps s) (trace s))
-  | PSpawn => (with_h (with_pc t PConnTables) HPending, s)
-  | PConnTables =>
-      (with_pc t PAdmitted,
-       mkServer (store s) (adp s) (conn_flag s) (c_socks s ++ [(t_conn t, sd)])
-                (set_add N.eqb (t_conn t) (c_nsps s)) (trace s))
+  | PSpawn => (with_h (with_pc t PAdmitted) HPending, s)
   | PAdmitted => (t, s)
   end.
 
